@@ -12,7 +12,7 @@ ev == Trace[l]
 
 \* the harness' projection of a specification state (bad = frames / datagrams it could not attribute: never any)
 Proj == [look |-> [s \in Slots |-> Look(s)], byreq |-> byreq, obj |-> obj, sock |-> sock,
-         nsock |-> Cardinality({s \in Slots : sock[s]}),
+         nsock |-> Cardinality({s \in Slots : sock[s]}) + leak,
          exp |-> [s \in Slots |-> exp[s] /\ obj[s] \in Live], count |-> Count,
          ackN |-> ackN, errN |-> errN, closeN |-> closeN, din |-> din, dout |-> dout, bad |-> 0, enabled |-> FALSE]
 
@@ -42,8 +42,8 @@ TraceReset ==
   /\ tab' = [k \in Keys |-> NoSlot] /\ byreq' = Fn(FALSE) /\ obj' = Fn("None") /\ sock' = Fn(FALSE) /\ rl' = Fn(FALSE)
   /\ exp' = Fn(FALSE) /\ pend' = Fn(FALSE) /\ enc' = Fn(FALSE)
   /\ ackN' = Fn(0) /\ errN' = Fn(0) /\ closeN' = Fn(0) /\ din' = Fn(0) /\ dout' = Fn(0) /\ ndg' = 0 /\ nerr' = 0
-  /\ infl' = Fn(FALSE) /\ clear' = 0
-  /\ life' = Fn("None") /\ why' = Fn("-")
+  /\ infl' = Fn(FALSE) /\ clear' = 0 /\ leak' = 0
+  /\ life' = Fn("None") /\ why' = Fn("-") /\ fresh' = Fn(FALSE)
   /\ last' = [act |-> "Init"]
   /\ Proj' = ev.st
 
